@@ -503,7 +503,11 @@ def verdict(w, deadlock, script):
                     got.append(ReadDecoder(TokenDictionary()).getProtocolTreeNode(bytearray(pt))["id"])
                 except Exception:
                     got.append("?")
-            accepted = ["early-1"] if getattr(w, "early_outcome", None) == "accepted" and getattr(w, "early_attempt", None) == last else []
+            # the early sender's stanza: refused -> never on the wire.  Accepted while the LAST attempt was current -> exactly once at this
+            # server.  Accepted although the sender set out during an earlier attempt (it was held up on its way down and got through after
+            # the reconnect, or that attempt's connection took it before it was cut): once at most here.
+            outcome, att = getattr(w, "early_outcome", None), getattr(w, "early_attempt", None)
+            accepted = ["early-1"] if outcome == "accepted" and (att == last or "early-1" in got) else []
             if sorted(got) != sorted(accepted + ["app-1", "app-2"]) or [g for g in got if g.startswith("app-")] != ["app-1", "app-2"]:
                 problems.append(("client-frames", "client stanzas at the server %s, accepted for sending %s" % (got, accepted + ["app-1", "app-2"])))
             stored = w.profile.config.server_static_public
